@@ -1373,6 +1373,20 @@ func (e *Engine) valueOf(st *State, x ast.Expr) *Fact {
 	case *ast.FuncLit:
 		return &Fact{Nil: 2}
 	case *ast.BinaryExpr:
+		// "a" + b with both operands known string constants on this path: their concatenation
+		if v.Op == token.ADD {
+			if bt, isB := e.Info.TypeOf(v).Underlying().(*types.Basic); isB && bt.Info()&types.IsString != 0 {
+				fx, fy := e.valueOf(st, v.X), e.valueOf(st, v.Y)
+				if fx != nil && fy != nil && fx.HasEq && fy.HasEq && len(fx.Eq) >= 2 && len(fy.Eq) >= 2 && fx.Eq[0] == '"' && fy.Eq[0] == '"' {
+					sx, ex := strconv.Unquote(fx.Eq)
+					sy, ey := strconv.Unquote(fy.Eq)
+					if ex == nil && ey == nil {
+						return &Fact{HasEq: true, Eq: fmt.Sprintf("%q", sx+sy)}
+					}
+				}
+				return nil
+			}
+		}
 		// x + k / x - k with bounds known for x: the bounds shifted
 		if v.Op == token.ADD || v.Op == token.SUB {
 			if k, ok := constInt(e.Info, v.Y); ok {
